@@ -1,4 +1,5 @@
 import PydraModel.Pickle.Lemmas
+import PydraModel.Pickle.Deep
 import PydraModel.Gen.PickleState
 /-
 C29 — Jobs and results survive serialization to worker processes (partial: record level).
@@ -79,6 +80,93 @@ theorem C29_witness_unpaired :
     checkClass ⟨"Job", [.all, .enc "task"], [.all]⟩ [] = false ∧
     roundTrip ⟨"Job", [.all, .enc "task"], [.all]⟩ (fun _ => .atom 1) "task" = .pickled (.atom 1) ∧
     checkClass ⟨"Job", [.all, .drop "cache_root"], [.all]⟩ [] = false := by decide
+
+/-! ### Object-graph level: a Job carries its Submitter, which carries its Worker -/
+
+/-- a class without `__getstate__`/`__setstate__` of its own (plain pickling) -/
+def plainClass (n : String) : ClassState := ⟨n, [.all], [.all]⟩
+
+theorem plain_ok (n : String) : checkClass (plainClass n) [] = true := by
+  simp [checkClass, plainClass, mentioned, Step.attr]
+
+/-- for graphs of generated classes, stability of a path is just "no transient attribute on it":
+    the per-class check is discharged by `C29_generated_classes_ok` -/
+theorem C29_stable_of_generated (h : Heap)
+    (hcls : ∀ i C o, h i = some (C, o) → C ∈ PickleState.classes) :
+    ∀ (p : List String) (i : Nat),
+      (∀ (q : List String) (a : String) (r : List String) (j : Nat) (C : ClassState) (o : Obj), p = q ++ a :: r →
+          follow h i q = .ref j → h j = some (C, o) → a ∉ transient C.name) →
+      stable transient h i p := by
+  intro p
+  induction p with
+  | nil => intro i _; trivial
+  | cons a p ih =>
+    intro i hq
+    unfold stable
+    cases hh : h i with
+    | none => trivial
+    | some co =>
+      obtain ⟨C, o⟩ := co
+      refine ⟨C29_generated_classes_ok C (hcls i C o hh), hq [] a p i C o rfl rfl hh, ?_⟩
+      cases p with
+      | nil => trivial
+      | cons b r =>
+        cases hoa : o a with
+        | ref j =>
+          simp only
+          apply ih j
+          intro q a' r' j' C' o' hsplit hf hj
+          refine hq (a :: q) a' r' j' C' o' (by rw [hsplit]; rfl) ?_ hj
+          cases q with
+          | nil =>
+            simp only [follow] at hf
+            simp only [follow, hh]
+            cases hf
+            exact hoa
+          | cons b' q' =>
+            simp only [follow, hh, hoa]
+            exact hf
+        | _ => trivial
+
+/-- C29 (graph level): for every object graph whose classes are the generated ones, following any path
+    that uses no attribute its owner's class declares transient gives, after pickling and restoring the
+    WHOLE graph, exactly what it gave before — e.g. `job.submitter.worker.n_procs`,
+    `job.submitter.worker.sbatch_args`, `job.submitter.cache_root`; nothing configured on a Worker instance
+    is replaced by a default. -/
+theorem C29_deep_roundtrip (h : Heap)
+    (hcls : ∀ i C o, h i = some (C, o) → C ∈ PickleState.classes)
+    (p : List String) (i : Nat)
+    (hp : ∀ (q : List String) (a : String) (r : List String) (j : Nat) (C : ClassState) (o : Obj), p = q ++ a :: r →
+          follow h i q = .ref j → h j = some (C, o) → a ∉ transient C.name) :
+    follow (heapRT h) i p = follow h i p :=
+  follow_heapRT transient h p i (C29_stable_of_generated h hcls p i hp)
+
+/-- the concrete graph of a Job submitted with a configured cf worker instance:
+    0 = Job, 1 = Submitter, 2 = ConcurrentFuturesWorker -/
+def sampleHeap : Heap
+  | 0 => some (PickleState.Job, fun a => if a = "submitter" then .ref 1 else if a = "task" then .atom 5 else .atom 1)
+  | 1 => some (PickleState.Submitter, fun a => if a = "worker" then .ref 2 else if a = "loop" then .atom 9 else .atom 2)
+  | 2 => some (PickleState.ConcurrentFuturesWorker,
+      fun a => if a = "n_procs" then .atom 19 else if a = "pool" then .atom 7 else if a = "loop" then .atom 9 else .absent)
+  | _ => Option.none
+
+/-- Non-vacuity and the instance the second seeded change broke: the worker's `n_procs` (19, not the default)
+    is what the restored job sees; the pool and the loop are re-created / None. -/
+example :
+    follow (heapRT sampleHeap) 0 ["submitter", "worker", "n_procs"] = .atom 19 ∧
+    follow (heapRT sampleHeap) 0 ["submitter", "worker"] = .ref 2 ∧
+    follow (heapRT sampleHeap) 0 ["task"] = .atom 5 ∧
+    follow (heapRT sampleHeap) 0 ["submitter", "worker", "pool"] = .fresh ∧
+    follow (heapRT sampleHeap) 0 ["submitter", "loop"] = .fresh := by decide
+
+/-- Witness (the shape of the seeded change `self.worker = type(self.worker)(**self.worker_kwargs)`): a
+    `Submitter.__setstate__` that re-creates `worker` is rejected by the check and really loses the
+    configuration reachable through it. -/
+theorem C29_witness_worker_recreated :
+    let bad : ClassState := ⟨"Submitter", [.all, .null "loop"], [.all, .fresh "loop", .fresh "worker"]⟩
+    checkClass bad (transient "Submitter") = false ∧
+    follow (heapRT (fun i => if i = 1 then some (bad, fun a => if a = "worker" then .ref 2 else .atom 2) else sampleHeap i))
+      1 ["worker", "n_procs"] = .absent := by decide
 
 /-- Non-vacuity: the generated `Result` description is the one with guarded encode/decode, and an
     errored result without outputs (`None`) round-trips as `None`. -/
